@@ -332,7 +332,31 @@ func registerTower(tt *towerType) {
 			if zx || zy {
 				cl = append(cl, "zero_subcoord")
 			}
-			return [][]byte{x, y}, cl, zx || zy
+			// previous content of the receiver (a distinct object): zero value, or an earlier result with every
+			// coordinate (and, half of the time, every limb) non-zero - a result must not depend on it
+			prior := make([]byte, 0, len(x))
+			w := (tt.spec.Q.BitLen() + 7) / 8
+			switch rapid.IntRange(0, 3).Draw(t, "prior") {
+			case 0:
+				prior = make([]byte, len(x))
+				cl = append(cl, "recv_prior:zero")
+			case 1:
+				qm1 := new(big.Int).Sub(tt.spec.Q, big.NewInt(1))
+				for i := 0; i < tt.deg; i++ {
+					prior = append(prior, qm1.FillBytes(make([]byte, w))...)
+				}
+				cl = append(cl, "recv_prior:all_q-1")
+			default:
+				for i := 0; i < tt.deg; i++ {
+					v := tt.spec.Uniform(t, "prior")
+					if v.Sign() == 0 {
+						v.SetInt64(1)
+					}
+					prior = append(prior, v.FillBytes(make([]byte, w))...)
+				}
+				cl = append(cl, "recv_prior:random_nonzero")
+			}
+			return [][]byte{x, y, prior}, cl, zx || zy
 		},
 		run: func(a [][]byte) [][]byte {
 			w := (tt.spec.Q.BitLen() + 7) / 8
@@ -348,7 +372,7 @@ func registerTower(tt *towerType) {
 			var out [][]byte
 			for _, m := range tt.meths {
 				x, y := load(a[0]), load(a[1])
-				z := reflect.New(tt.typ)
+				z := reflect.ValueOf(load(a[2]))
 				mv := z.MethodByName(m)
 				var in []reflect.Value
 				in = append(in, reflect.ValueOf(x))
